@@ -271,6 +271,7 @@ func propC08(c *Check) {
 		c.RequireFact(s.fn, "R3", "O4 number+1", lit(EQ("(1 + Block.Get()#0.BlockNumber)", pl+".BlockNumber")), nil, "")
 		c.RequireFact(s.fn, "R3", "O5 beacon-root", lit("bytes.Equal(BeaconRoot.Get()#0, "+pl+".BeaconRoot)"), nil, "")
 		c.RequireFact(s.fn, "R3", "O6 system-txs", lit("(Keeper.VerifyDequeue("+pl+".ExtraData, "+pl+".Transactions) == nil)"), nil, "")
+		c.RequireFact(s.fn, "R3", "O9 block-hash-32-bytes", lit(EQ("32", "len("+pl+".BlockHash)")), nil, "")
 		c.RequireFact(s.fn, "R3", "O7 requests-decode", lit("(goattypes.DecodeRequests("+pl+".Requests)#3 == nil)"), nil, "")
 	}
 	c.RequireFact(V, "R3", "O8 one-gas-request", lit(EQ("1", "len(goattypes.DecodeRequests(^$2.Payload.Requests)#2.Gas)")), nil, "")
